@@ -479,6 +479,28 @@ pub fn format_swift_amount(amount: f64, decimals: usize) -> String {
     formatted.replace('.', ",")
 }
 
+/// Format an amount that carries no currency, without losing decimals
+///
+/// Writes at least `min_decimals` decimals and as many more as the value needs to be read
+/// back unchanged: 1234.5 is written 1234,50 and 0.125 is written 0,125 (not 0,13).
+///
+/// # Examples
+/// ```
+/// use swift_mt_message::fields::swift_utils::format_swift_amount_min_decimals;
+///
+/// assert_eq!(format_swift_amount_min_decimals(1234.5, 2), "1234,50");
+/// assert_eq!(format_swift_amount_min_decimals(0.125, 2), "0,125");
+/// ```
+pub fn format_swift_amount_min_decimals(amount: f64, min_decimals: usize) -> String {
+    // The shortest text that reads back as the same value tells how many decimals it has
+    let shortest = amount.to_string();
+    let decimals = match shortest.find('.') {
+        Some(dot_pos) => shortest.len() - dot_pos - 1,
+        None => 0,
+    };
+    format_swift_amount(amount, decimals.max(min_decimals))
+}
+
 /// Format amount for SWIFT output with currency-specific decimal precision
 ///
 /// This is a currency-aware version of format_swift_amount that automatically
